@@ -1,0 +1,185 @@
+//! Verification hooks, compiled only with the `verif` cargo feature.
+//!
+//! Re-exports crate-private items under stable names and provides a tap registry.
+//! Nothing here changes behaviour unless a tap has been installed with [`set_tap`].
+
+use std::sync::{Arc, RwLock};
+
+pub use crate::{
+    apng::Frame,
+    colors::{BitDepth, ColorType},
+    deflate::{crc32, deflate, inflate, Deflaters},
+    error::PngError,
+    filters::RowFilter,
+    headers::{
+        extract_icc, file_header_is_valid, make_iccp, parse_ihdr_chunk, parse_next_chunk,
+        postprocess_chunks, preprocess_chunks, srgb_rendering_intent, Chunk, IhdrData, RawChunk,
+        StripChunks,
+    },
+    interlace::{deinterlace_image, interlace_image, Interlacing},
+    options::Options,
+    png::{PngData, PngImage},
+    reduction::{alpha::*, bit_depth::*, color::*, palette::*},
+    Deadline,
+};
+
+/// Which shared-state access of a compression trial is about to happen
+#[derive(Debug, Clone, Copy, PartialEq, Eq)]
+pub enum SchedPoint {
+    /// The trial is about to read the shared best-size bound
+    Read,
+    /// The trial is about to publish its result (update the bound and send the candidate)
+    Publish,
+}
+
+/// Observer interface; every method has a no-op default
+pub trait Tap: Send + Sync {
+    /// An image was submitted to an evaluator
+    fn candidate(&self, _eval: usize, _nth: usize, _description: &str, _image: &PngImage) {}
+    /// A trial reached a scheduling point; may block
+    fn sched_point(&self, _eval: usize, _point: SchedPoint, _nth: usize, _filter: RowFilter) {}
+    /// A trial finished compressing: `size` is the estimated output size if it fit under the bound
+    fn trial(&self, _eval: usize, _nth: usize, _filter: RowFilter, _size: Option<usize>) {}
+    /// A trial was skipped because the deadline had passed
+    fn skipped(&self, _eval: usize, _nth: usize, _filter: RowFilter) {}
+    /// The deadline is being consulted; `Some(b)` overrides the clock
+    fn deadline(&self) -> Option<bool> {
+        None
+    }
+    /// A compression was requested
+    fn deflate(&self, _deflater: Deflaters, _data: &[u8], _max_size: Option<usize>) {}
+    /// An evaluator was created
+    fn evaluator(&self, _eval: usize, _filters: &[RowFilter], _deflater: Deflaters, _final_round: bool) {}
+    /// An evaluator's initial bound was set
+    fn best_size(&self, _eval: usize, _size: usize) {}
+}
+
+static TAP: RwLock<Option<Arc<dyn Tap>>> = RwLock::new(None);
+
+/// Install (or remove) the process-wide tap
+pub fn set_tap(tap: Option<Arc<dyn Tap>>) {
+    *TAP.write().unwrap() = tap;
+}
+
+pub(crate) fn tap() -> Option<Arc<dyn Tap>> {
+    TAP.read().unwrap().clone()
+}
+
+static EVAL_IDS: std::sync::atomic::AtomicUsize = std::sync::atomic::AtomicUsize::new(0);
+
+pub(crate) fn next_eval_id() -> usize {
+    EVAL_IDS.fetch_add(1, std::sync::atomic::Ordering::SeqCst)
+}
+
+/// Reset the evaluator numbering (call between cases)
+pub fn reset_eval_ids() {
+    EVAL_IDS.store(0, std::sync::atomic::Ordering::SeqCst);
+}
+
+/// `RowFilter::filter_line`: returns (filtered line incl. filter byte, possibly altered raw line)
+pub fn filter_line(
+    filter: RowFilter,
+    bpp: usize,
+    data: &[u8],
+    prev_line: &[u8],
+    alpha_bytes: usize,
+) -> (Vec<u8>, Vec<u8>) {
+    let mut data = data.to_vec();
+    let mut buf = Vec::new();
+    filter.filter_line(bpp, &mut data, prev_line, &mut buf, alpha_bytes);
+    (buf, data)
+}
+
+/// `RowFilter::unfilter_line`
+pub fn unfilter_line(
+    filter: RowFilter,
+    bpp: usize,
+    data: &[u8],
+    prev_line: &[u8],
+) -> Result<Vec<u8>, PngError> {
+    let mut buf = Vec::new();
+    filter.unfilter_line(bpp, data, prev_line, &mut buf)?;
+    Ok(buf)
+}
+
+/// `paeth_predictor`
+pub fn paeth_predictor(a: u8, b: u8, c: u8) -> u8 {
+    crate::filters::verif_paeth_predictor(a, b, c)
+}
+
+/// `PngImage::unfilter_image` on an image whose `data` still carries filter bytes
+pub fn unfilter_image(png: &PngImage) -> Result<Vec<u8>, PngError> {
+    png.verif_unfilter_image()
+}
+
+/// `StripChunks::keep`
+pub fn strip_keep(strip: &StripChunks, name: &[u8; 4]) -> bool {
+    strip.keep(name)
+}
+
+/// `Deflaters::deflate`
+pub fn deflaters_deflate(
+    deflater: Deflaters,
+    data: &[u8],
+    max_size: Option<usize>,
+) -> Result<Vec<u8>, PngError> {
+    deflater.deflate(data, max_size)
+}
+
+/// `RawChunk::is_c2pa`
+pub fn is_c2pa(name: [u8; 4], data: &[u8]) -> bool {
+    RawChunk { name, data }.is_c2pa()
+}
+
+/// `is_fully_optimized`
+pub fn is_fully_optimized(original_size: usize, optimized_size: usize, opts: &Options) -> bool {
+    crate::is_fully_optimized(original_size, optimized_size, opts)
+}
+
+/// One image submitted by `perform_reductions`
+#[derive(Debug, Clone)]
+pub struct Submitted {
+    pub nth: usize,
+    pub description: String,
+    pub image: PngImage,
+}
+
+/// Run `perform_reductions` with an evaluator that is discarded; returns the baseline
+pub fn perform_reductions(png: PngImage, opts: &Options) -> PngImage {
+    let deadline = Arc::new(Deadline::new(opts.timeout));
+    let eval = crate::evaluate::Evaluator::new(
+        deadline.clone(),
+        crate::indexset! {RowFilter::None},
+        Deflaters::Libdeflater { compression: 1 },
+        false,
+        false,
+    );
+    let baseline = crate::reduction::perform_reductions(Arc::new(png), opts, &deadline, &eval);
+    let _ = eval.get_best_candidate();
+    (*baseline).clone()
+}
+
+/// Result of `optimize_raw`
+#[derive(Debug, Clone)]
+pub struct RawResult {
+    pub image: PngImage,
+    pub idat: Vec<u8>,
+    pub filter: RowFilter,
+    pub estimated_output_size: usize,
+}
+
+/// `optimize_raw`
+pub fn optimize_raw(png: PngImage, opts: &Options, max_size: Option<usize>) -> Option<RawResult> {
+    let deadline = Arc::new(Deadline::new(opts.timeout));
+    crate::optimize_raw(Arc::new(png), opts, deadline, max_size).map(|c| RawResult {
+        image: (*c.image).clone(),
+        idat: c.data,
+        filter: c.filter,
+        estimated_output_size: c.estimated_output_size,
+    })
+}
+
+/// The palette-sorting internals
+pub mod palette_internals {
+    pub use crate::reduction::palette::verif_internals::*;
+}
